@@ -7,11 +7,18 @@ REPO = os.environ.get('THEO_REPO', '/repo')
 _cache = {}
 
 
+PINNED = os.path.join(os.path.dirname(os.path.dirname(os.path.abspath(__file__))), 'spec', 'lexer.l.pinned')
+
+
 def _load():
-    key = os.path.getmtime(os.path.join(REPO, 'Compiler/src/lexer.l'))
+    # the SPECIFICATION of tokenisation is the rule section of lexer.l at the pinned commit (a committed copy under
+    # /verif/spec): the oracle does not follow later edits of /repo's lexer.l — a change of the scanner specification
+    # that changes the token stream of some buffer is a difference between implementation and specification
+    spec = PINNED if os.path.exists(PINNED) else os.path.join(REPO, 'Compiler/src/lexer.l')
+    key = (spec, os.path.getmtime(spec))
     if _cache.get('key') == key:
         return _cache['rules'], _cache['names']
-    src = open(os.path.join(REPO, 'Compiler/src/lexer.l'), encoding='latin1').read()
+    src = open(spec, encoding='latin1').read()
     parts = src.split('\n%%')
     defs_part, rules_part = parts[0], parts[1]
     defs = {}
